@@ -503,6 +503,7 @@ class FuncAnalysis:
             return
         if name in ALLOCATORS:
             if collect:
+                self.S.ext_calls.setdefault(name, self.site(inst))
                 if name == "calloc":
                     sz = ("bin", "mul", self.term(inst["ops"][0], st), self.term(inst["ops"][1], st))
                 else:
@@ -511,6 +512,7 @@ class FuncAnalysis:
             return
         if name == "free":
             if collect:
+                self.S.ext_calls.setdefault(name, self.site(inst))
                 a = self.am.of(inst["ops"][0])
                 self.S.frees.append((inst["id"], self.term(inst["ops"][0], st), a, self.site(inst), st.facts))
             return
